@@ -34,7 +34,7 @@ _p("C04", ["shexing", "c20_config"], ["schemas"],
    "Deductive: exception-freedom (None dereference, missing keys, index range, call shapes, list.remove membership) of the node-kind merge under its "
    "representation invariant, which the constructor is proved to establish; call shapes of shex_graph / profile_graph. Totality of the composed pipeline on "
    "adversarial mixes x configurations x formats: bounded (schemas.py).")
-_p("C05", [], ["schemas"], MON)
+_p("C05", ["c05_tokens"], ["schemas"], "wip")
 _p("C06", ["c06_nt"], ["readers"], "wip")
 _p("C07", ["c07_ttl"], ["readers"], "wip")
 _p("C08", ["c08_channels", "c06_nt"], ["channels"], "wip")
